@@ -569,6 +569,16 @@ def np_pad(ex, args, kwargs, node):
     a = args[0]
     width = kwargs.get("pad_width", args[1] if len(args) > 1 else None)
     cv = kwargs.get("constant_values", 0)
+    if isinstance(a, Arr) and a.rank == 1 and isinstance(width, (tuple, list)) and len(width) == 2 and width[0] == 0:
+        # np.pad(a, (0, m), constant_values=c) on a 1-D array: m extra entries holding c (numpy raises ValueError for m < 0)
+        m = width[1]
+        ex.oblige("pad_width", E.compare(ast.GtE(), m, 0), "np.pad width is not negative (numpy raises ValueError otherwise)", node)
+        trusted(ex, "numpy.pad(constant) 1-D: appended entries hold the constant")
+        ln = to_z3(a.shape[0], "int")
+        r = Arr.from_lambda([arith("+", a.shape[0], m)], a.kind, lambda t: z3.If(t < ln, a.sel(t), to_z3(cv, a.kind)))
+        r.ghost = {k: v for k, v in a.ghost.items() if k in ("space", "vspace", "dtype")}
+        r.ghost.update(owner="fresh", corder=True)
+        return r
     if not (isinstance(a, Arr) and a.rank == 2 and isinstance(width, (tuple, list)) and len(width) == 2):
         raise Unsupported("np.pad other than 2-D with explicit widths")
     (r0, r1), (c0, c1) = [tuple(w) for w in width]
